@@ -392,3 +392,34 @@ Example ex_anchor_stepback :
   safe_anchor ex_monthly31 19763 = Some 19753 /\
   g_safe_anchor_of (S BACK_FUEL) ex_monthly31 19763 = RDone 19753.
 Proof. split; vm_compute; reflexivity. Qed.
+
+(* ------------------------------------------------------------------------------------------ *)
+(* headline theorems of the property files restated on the GENERATED definitions              *)
+From CG Require Import Spec.RecurSpec Proofs.RecurP Proofs.RecurExact Proofs.RecurExact2.
+From Coq Require Import Sorting.Sorted.
+
+Theorem src_forward_exact : forall r a b l,
+  lists_ok r -> 0 < r_interval r -> rule_accepted r -> zone_spread_ok (r_zone r) = true ->
+  fetch_forward r a b = Ok l ->
+  g_forward_of r (gen_anchor r) (model_rrule r b) (Some a) (Some b) = RDone (spec_occurrences r a b).
+Proof.
+  intros r a b l H1 H2 H3 H4 H.
+  rewrite (g_recur_fetch_forward_composed_eq r a b l H).
+  f_equal. eapply C07_forward_exact; eassumption.
+Qed.
+Print Assumptions src_forward_exact.
+
+Theorem src_reverse_is_rev_forward : forall (r : rule) (occs : list ivl),
+  (forall a b, fetch_forward r a b =
+               Ok (filter (fun i => (a <? fend i) && (fstart i <=? b)) occs)) ->
+  StronglySorted (fun x y => fstart x <= fstart y) occs ->
+  Forall (fun i => fstart i < fend i) occs ->
+  forall a b, a < b ->
+    g_recur_fetch_reverse (reverse_fuel r (Some a) b) (r_freq r) (gen_fwd r) (Some a) (Some b)
+    = RDone (rev (filter (fun i => (a <? fend i) && (fstart i <=? b)) occs)).
+Proof.
+  intros r occs Hf Hs Hp a b Hab.
+  apply g_recur_fetch_reverse_composed_eq.
+  exact (fetch_reverse_is_rev_forward r occs Hf Hs Hp a b Hab).
+Qed.
+Print Assumptions src_reverse_is_rev_forward.
